@@ -350,6 +350,21 @@ impl<'tcx> Cx<'tcx> {
         if let ty::InstanceKind::ClosureOnceShim { .. } = ci.def {
             return true;
         }
+        // `x.into()` is `U::from(x)`: walk the one-line library wrapper so that a workspace `impl From<T> for U` (e.g. a bool turned
+        // into a two-variant enum that is matched later) is ordinary walked code and not an opaque conversion
+        if key.contains(" as core::convert::Into<") && key.ends_with(">::into") {
+            // only conversions INTO a workspace type (library conversions stay atomic, transparent leaves)
+            let target = key.rsplit(" as core::convert::Into<").next().unwrap_or("");
+            let lib = ["soroban_sdk::", "core::", "alloc::", "std::", "alloy_", "ruint::", "stellar_", "u8", "u16", "u32", "u64", "u128", "usize",
+                       "i8", "i16", "i32", "i64", "i128", "isize", "bool", "(", "[", "&"];
+            if !lib.iter().any(|p| target.starts_with(p)) {
+                if let ty::InstanceKind::Item(d) = ci.def {
+                    if self.tcx.is_mir_available(d) {
+                        return true;
+                    }
+                }
+            }
+        }
         let has_mir = match ci.def {
             ty::InstanceKind::Item(d) => self.tcx.is_mir_available(d),
             ty::InstanceKind::ClosureOnceShim { .. } => true,
